@@ -169,10 +169,12 @@ package bridgesync
 //@ func (p *processor) queryBlockRange
 //@   props C02 C03 C05
 //@   trusted
+//@   modifies nothing
 //@   sqltext "SELECT * FROM %s WHERE block_num >= $1 AND block_num <= $2 ORDER BY block_num ASC, block_pos ASC;"
 //@ func (p *processor) getLastProcessedBlockWithTx
 //@   props C02 C03 C05
 //@   trusted
+//@   modifies nothing
 //@   sqltext "SELECT num FROM block ORDER BY num DESC LIMIT 1;"
 //@ func (p *processor) GetBridges
 //@   props C02 C03
